@@ -22,9 +22,15 @@ func c16kinds(b *builder) []c16kind {
 		return c16kind{k, func(b *builder, n string, t int) SField { return SField{Name: n, Tag: t, Kind: k} }}
 	}
 	return []c16kind{sc("int32"), sc("string"), sc("bytes"), sc("bool"), sc("float64"), sc("bin128"), sc("uint64"),
-		{"enum", func(b *builder, n string, t int) SField { return SField{Name: n, Tag: t, Kind: "enum", Ref: e, Via: "base0"} }},
-		{"struct", func(b *builder, n string, t int) SField { return SField{Name: n, Tag: t, Kind: "struct", Ref: s, Via: "base0"} }},
-		{"msg", func(b *builder, n string, t int) SField { return SField{Name: n, Tag: t, Kind: "msg", Ref: sub, Via: "base0"} }},
+		{"enum", func(b *builder, n string, t int) SField {
+			return SField{Name: n, Tag: t, Kind: "enum", Ref: e, Via: "base0"}
+		}},
+		{"struct", func(b *builder, n string, t int) SField {
+			return SField{Name: n, Tag: t, Kind: "struct", Ref: s, Via: "base0"}
+		}},
+		{"msg", func(b *builder, n string, t int) SField {
+			return SField{Name: n, Tag: t, Kind: "msg", Ref: sub, Via: "base0"}
+		}},
 		{"[]int64", func(b *builder, n string, t int) SField { return SField{Name: n, Tag: t, Kind: "int64", List: true} }},
 		{"[]string", func(b *builder, n string, t int) SField { return SField{Name: n, Tag: t, Kind: "string", List: true} }},
 		{"[]msg", func(b *builder, n string, t int) SField {
